@@ -74,7 +74,11 @@ func (e *Env) CheckOne(files Files) (rep Report) {
 		rep.PosOK += ok
 		rep.Unpos += un
 		rep.NErr++
-		msg := err.Error()
+		msg, pk := safeError(err)
+		if pk != "" {
+			// the returned error value itself panics when printed
+			rep.Issues = append(rep.Issues, "error-method-panics:"+KeyOnly(pk)+": "+pk)
+		}
 		if strings.Contains(msg, "runtime error") || strings.Contains(msg, "nil pointer") {
 			rep.RecovMsgs = append(rep.RecovMsgs, firstLine(msg))
 		}
@@ -128,6 +132,16 @@ func (e *Env) CheckOne(files Files) (rep Report) {
 		}
 	}
 	return
+}
+
+// safeError calls err.Error() under recover.
+func safeError(err error) (msg, panicKey string) {
+	defer func() {
+		if r := recover(); r != nil {
+			panicKey = PanicKey(r)
+		}
+	}()
+	return err.Error(), ""
 }
 
 func (e *Env) compileRec(fset *token.FileSet, pkg *ast.Package) (res string) {
